@@ -7,6 +7,9 @@ package main
 import (
 	"fmt"
 	"math"
+	"runtime"
+	"sync"
+	"sync/atomic"
 	"math/rand"
 	"os"
 	"sort"
@@ -175,8 +178,11 @@ func (x *idxEnv) rangeScan(lo, hi int) {
 
 // idx seq <out.ndjson> <sequences> <ops per sequence>
 func idxDriver(args []string) error {
+	if args[0] == "conc" {
+		return idxConc(args[1:])
+	}
 	if args[0] != "seq" {
-		return fmt.Errorf("idx seq ...")
+		return fmt.Errorf("idx seq|conc ...")
 	}
 	eng.Quiet()
 	tw, err := trace.New(args[1])
@@ -324,6 +330,198 @@ func idxDriver(args []string) error {
 			}
 		}
 		probes()
+	}
+	return tw.Close()
+}
+
+// idx conc <out.ndjson> <windows> <goroutines> <ops per goroutine> <gomaxprocs>
+// Concurrent use of one index: every goroutine inserts and deletes its own entries and looks keys up, one
+// goroutine scans; a set of sentinel entries is loaded before and never touched.  Invoke / return events
+// are ordered by a shared atomic counter.
+func idxConc(args []string) error {
+	eng.Quiet()
+	tw, err := trace.New(args[0])
+	if err != nil {
+		return err
+	}
+	windows, _ := strconv.Atoi(args[1])
+	ng, _ := strconv.Atoi(args[2])
+	nops, _ := strconv.Atoi(args[3])
+	procs, _ := strconv.Atoi(args[4])
+	runtime.GOMAXPROCS(procs)
+	kinds := []string{"skiplist", "btree", "skiplist"}
+	typs := []string{"int", "varchar", "float"}
+	const nk = 12
+	for w := 0; w < windows; w++ {
+		kind, typ := kinds[w%len(kinds)], typs[(w/len(kinds))%3]
+		s, err := newRun(tw, "C17", 4000)
+		if err != nil {
+			return err
+		}
+		t := &tableDef{name: fmt.Sprintf("c%d", w), cols: []string{typ}, names: []string{"k"}, kinds: []string{kind}}
+		s.createAPI(t)
+		x := &idxEnv{s: s, t: t, kind: kind, typ: typ, keys: buildKeyTab(typ, false), q: w}
+		x.idx = s.e.Catalog().GetTableByName(t.name).GetIndex(0)
+		// sentinels: two entries under every third key, plus enough entries to have several nodes
+		ents := [][]int{}
+		rid := 0
+		for k := 0; k < nk; k += 3 {
+			for j := 0; j < 2; j++ {
+				x.idx.InsertEntry(x.keyTuple(k), ridOf(rid), nil)
+				ents = append(ents, []int{k, rid})
+				rid++
+			}
+		}
+		for i := 0; i < 120; i++ { // ballast above the working keys (never touched either)
+			x.idx.InsertEntry(x.keyTuple(nk+1+i%20), ridOf(rid), nil)
+			ents = append(ents, []int{nk + 1 + i%20, rid})
+			rid++
+		}
+		tw.Emit(map[string]interface{}{"ev": "Reset", "ents": ents, "kind": kind, "ktype": typ, "gomaxprocs": procs, "ctx": "C17"})
+		var clock int64
+		var nextRid int64 = 100000
+		type rec struct {
+			inv, ret int64
+			ev       map[string]interface{}
+		}
+		recs := make([][]*rec, ng)
+		var wg sync.WaitGroup
+		var hung int32
+		for g := 0; g < ng; g++ {
+			wg.Add(1)
+			go func(g int) {
+				defer wg.Done()
+				rng := rand.New(rand.NewSource(envSeed()*7919 + int64(w*100+g)))
+				mine := [][2]int{}
+				for i := 0; i < nops; i++ {
+					r := &rec{}
+					ev := map[string]interface{}{"c": g*100000 + i, "res": "ok", "rids": []int{}}
+					x9 := rng.Intn(10)
+					var f func()
+					switch {
+					case g == 0 && x9 < 5: // the scanner
+						lo, hi := -2, -2
+						if rng.Intn(2) == 0 {
+							lo = rng.Intn(nk)
+							hi = lo + rng.Intn(nk-lo)
+						} else {
+							hi = nk - 1
+						}
+						ev["k"], ev["lo"], ev["hi"] = "scan", lo, hi
+						f = func() {
+							var lk, hk *tuple.Tuple
+							if lo != -2 {
+								lk = x.keyTuple(lo)
+							}
+							if hi != -2 {
+								hk = x.keyTuple(hi)
+							}
+							itr := x.idx.GetRangeScanIterator(lk, hk, nil)
+							out := []int{}
+							for done, _, _, rd := itr.Next(); !done; done, _, _, rd = itr.Next() {
+								out = append(out, ridID(*rd))
+								if len(out) > 100000 {
+									break
+								}
+							}
+							ev["rids"] = out
+						}
+					case x9 < 4 || len(mine) == 0:
+						k := rng.Intn(nk)
+						rd := int(atomic.AddInt64(&nextRid, 1))
+						ev["k"], ev["a"], ev["r"] = "ins", k, rd
+						f = func() { x.idx.InsertEntry(x.keyTuple(k), ridOf(rd), nil) }
+						mine = append(mine, [2]int{k, rd})
+					case x9 < 7:
+						j := rng.Intn(len(mine))
+						m := mine[j]
+						mine = append(mine[:j], mine[j+1:]...)
+						ev["k"], ev["a"], ev["r"] = "del", m[0], m[1]
+						f = func() { x.idx.DeleteEntry(x.keyTuple(m[0]), ridOf(m[1]), nil) }
+					default:
+						k := rng.Intn(nk)
+						ev["k"], ev["a"] = "point", k
+						f = func() {
+							out := []int{}
+							for _, rd := range x.idx.ScanKey(x.keyTuple(k), nil) {
+								out = append(out, ridID(rd))
+							}
+							ev["rids"] = out
+						}
+					}
+					r.ev = ev
+					r.inv = atomic.AddInt64(&clock, 1)
+					done := make(chan string, 1)
+					go func() {
+						defer func() {
+							if p := recover(); p != nil {
+								done <- "panic:" + fmt.Sprint(p)
+							}
+						}()
+						f()
+						done <- "ok"
+					}()
+					select {
+					case res := <-done:
+						ev["res"] = res
+					case <-time.After(40 * time.Second):
+						ev["res"] = "hang"
+						atomic.StoreInt32(&hung, 1)
+					}
+					r.ret = atomic.AddInt64(&clock, 1)
+					recs[g] = append(recs[g], r)
+					if ev["res"] != "ok" {
+						return
+					}
+				}
+			}(g)
+		}
+		wg.Wait()
+		// closing full scan
+		fin := &rec{ev: map[string]interface{}{"c": 99999999, "k": "scan", "lo": -2, "hi": nk - 1, "res": "ok", "rids": []int{}}}
+		fin.inv = atomic.AddInt64(&clock, 1)
+		func() {
+			defer func() {
+				if p := recover(); p != nil {
+					fin.ev["res"] = "panic:" + fmt.Sprint(p)
+				}
+			}()
+			itr := x.idx.GetRangeScanIterator(nil, x.keyTuple(nk-1), nil)
+			out := []int{}
+			for done, _, _, rd := itr.Next(); !done; done, _, _, rd = itr.Next() {
+				out = append(out, ridID(*rd))
+			}
+			fin.ev["rids"] = out
+		}()
+		fin.ret = atomic.AddInt64(&clock, 1)
+		type evt struct {
+			at  int64
+			inv bool
+			r   *rec
+		}
+		evs := []evt{}
+		for _, l := range append(recs, []*rec{fin}) {
+			for _, r := range l {
+				evs = append(evs, evt{r.inv, true, r}, evt{r.ret, false, r})
+			}
+		}
+		sort.Slice(evs, func(i, j int) bool { return evs[i].at < evs[j].at })
+		for _, e := range evs {
+			if e.inv {
+				ev := map[string]interface{}{"ev": "Inv"}
+				for k, v := range e.r.ev {
+					ev[k] = v
+				}
+				tw.Emit(ev)
+			} else {
+				tw.Emit(map[string]interface{}{"ev": "Ret", "c": e.r.ev["c"]})
+			}
+		}
+		if hung != 0 {
+			tw.Flush()
+			tw.Close()
+			os.Exit(3)
+		}
 	}
 	return tw.Close()
 }
